@@ -13,6 +13,10 @@
        PEvict   Deque.DistributorNonBlocking = ForcePushBack + WaitFront (NewLIFOBroker): drops the OLDEST,
                 delivers in FIFO order (the code, not its doc comment)
      or `chanb`: an unbuffered channel (rendezvous between the loop's Send and a worker's Receive).
+     Distributor.WithInputFilter / WithOutputFilter (inmod / outmod: ids divisible by the modulus are
+     rejected): a rejected Send returns nil without enqueueing (ELoopFilter); a rejected Receive
+     consumes the item and yields ErrCurrentOpSkip (ESkip w) - the worker then takes the next item
+     (skipstop = false, the repaired code) or returns (skipstop = true, the original).
    * nw = max 1 WorkerPoolSize dispatch workers: WIdle (calling dist.Receive) / WParked (inside the
      back-end's cond.Wait; EWake is enabled according to the parameter `wake`, the back-end's wake-up
      discipline) / WBusy m ranging visited must pending (inside dispatchMessage) / WDone.
